@@ -6,7 +6,7 @@ import CTV.Gen.Migrate
 One `fetchTail` pass = C16's fetcher (`CTV.Model.Scan`, never continuous here: the controller implements continuity
 itself) + the `batches` channel + the submitters + the destination.
 
-* `fetch op`     – an action of the fetcher (`hand`, `resp`, `err`, `close`, `cancel`); a `resp` hands the fetched
+* `fetch op`     – an action of the fetcher (`hand`, `resp`, `err`, `abandon`, `close`, `cancel`); a `resp` hands the fetched
                    batch to the channel (`handler`: `batches <- b`),
 * `respDrop w k` – a `resp` whose batch the handler drops because the pass context is already cancelled
                    (`case <-cctx.Done()`),
@@ -70,7 +70,7 @@ def pinit (start end_ batch fetchers submitters : Nat) (dest : List Stored) : PS
 
 /-- ops of the fetcher that can occur inside a pass (no `Stop`, no growth, no matcher stage, contract-abiding server) -/
 def fetchOpOk : Op → Bool
-  | .hand _ | .resp _ _ | .err _ | .close | .cancel => true
+  | .hand _ | .resp _ _ | .err _ | .abandon _ | .close | .cancel => true
   | _ => false
 
 def giveUp (c : Cfg) (s : PSt) (j : Nat) (b : Batch) : PSt :=
